@@ -29,8 +29,8 @@ from .common import symbolic_run, Vals
 
 PROPERTY = "C18"
 
-SHAPES = {"s": (), "z": (), "1": (4,), "2": (2, 3), "3": (2, 2, 2)}     # "z": rank-0 NumPy arrays (mutable scalars)
-KINDS = {"1": ["B", "T", "I", "N", "R"], "2": ["B", "T", "I", "N", "P", "M", "R"], "3": ["B", "T", "I", "N", "P", "M"]}
+SHAPES = {"s": (), "z": (), "1": (4,), "2": (2, 3), "3": (2, 2, 2), "L": (12,)}     # "z": rank-0 NumPy arrays (mutable scalars)
+KINDS = {"L": ["I", "J"], "1": ["B", "T", "I", "N", "R"], "2": ["B", "T", "I", "N", "P", "M", "R"], "3": ["B", "T", "I", "N", "P", "M"]}
 OPS_SCALAR = ["stA", "seA", "adA", "adAB", "adN", "rsA", "rsAk", "rsAn"]
 OPS_ARRAY = OPS_SCALAR + ["mut", "sl", "sl2", "nest", "adS", "rsS", "stS", "seS"]
 
@@ -76,6 +76,8 @@ def spec(shape_key, kind):
     """Index object for A[...]."""
     if shape_key == "1":
         return {"B": slice(1, 3), "T": (slice(0, 4, 2),), "I": np.array([3, 0, 2]), "N": 2, "R": slice(None, None, -1)}[kind]
+    if shape_key == "L":      # two different index arrays of six entries each on one base (long index arrays)
+        return {"I": np.arange(0, 12, 2), "J": np.arange(1, 12, 2)}[kind]
     if shape_key == "2":
         return {"B": slice(0, 1), "T": (slice(None), slice(1, 3)), "I": np.array([1, 0]), "N": 1,
                 "P": (np.array([0, 1]), np.array([2, 0])), "M": (slice(None), np.array([2, 0])),
@@ -94,13 +96,13 @@ def nested_spec(shape_key, kind):
         "2": {"B": (slice(None), slice(0, 2)), "T": (1, slice(None)), "N": slice(1, 3), "R": (slice(None), slice(1, None))},
         "3": {"B": (0, slice(None), slice(1, 2)), "T": (slice(0, 1), 0), "N": (slice(None), 1)},
     }
-    return tab[shape_key].get(kind)
+    return tab.get(shape_key, {}).get(kind)
 
 
 def nested_on_fancy_spec(shape_key, kind):
     """Outside the default bound: a basic slice on top of an integer-array slice."""
     tab = {"1": {"I": slice(0, 2)}, "2": {"I": slice(0, 1), "P": slice(1, 2)}, "3": {"I": slice(1, 2), "P": slice(0, 1)}}
-    return tab[shape_key].get(kind)
+    return tab.get(shape_key, {}).get(kind)
 
 
 # ------------------------------------------------------------------------------------------------ histories
@@ -192,11 +194,13 @@ def _configs():
             for init in (False, True):
                 for i, k1 in enumerate(kinds):
                     cfgs.append(dict(shape=sk, cplx=cplx, init=init, k1=k1, k2=kinds[(i + 1 + (int(init) + 2 * int(cplx)) % (len(kinds) - 1)) % len(kinds)]))
+    for init in (False, True):
+        cfgs.append(dict(shape="L", cplx=False, init=init, k1="I", k2="J"))
     return cfgs
 
 
 def _cfg_name(c):
-    return "%s-%s-%s-%s%s" % ({"s": "scalar", "z": "rank0", "1": "1d", "2": "2d", "3": "3d"}[c["shape"]], "cplx" if c["cplx"] else "real",
+    return "%s-%s-%s-%s%s" % ({"s": "scalar", "z": "rank0", "1": "1d", "2": "2d", "3": "3d", "L": "1dlong"}[c["shape"]], "cplx" if c["cplx"] else "real",
                               "init" if c["init"] else "noinit", c["k1"] or "", c["k2"] or "")
 
 
